@@ -1,6 +1,8 @@
 (* C16 — packed length encoding and fixed-width integers are exact for every value.
    Statements only; proofs in SevenBit.v, BaseFacts.v, PrimFacts.v, ObjFacts.v. *)
+From Sbdf Require Import Imp Gen.Prog ImpFacts ImpFacts7.
 From Sbdf Require Import Prim BaseFacts PrimFacts SevenBit Obj ObjFacts LeafTie.
+From Coq Require Import List.
 From Sbdf.Gen Require Import Leaf.
 
 (* every length 0 <= n < 2^31 is read back as n whatever follows it, and every strict prefix of
@@ -47,3 +49,34 @@ Print Assumptions C16_overlong_refused.
 
 Example C16_nonvacuous : len_range 16384 /\ enc7 16384 = [128; 128; 1] /\ enc7 300 = [172; 2] /\ len7 2147483647 = 5.
 Proof. repeat split; vm_compute; congruence. Qed.
+
+(* ---- the source itself.  Gen/Prog.v holds sbdf_read_7bitpacked_int32 and
+   sbdf_write_7bitpacked_int32 of src/internals.c translated by tools/c2imp.py into the mini-C of
+   Imp.v on every run (unsigned 32-bit arithmetic with wrap-around, fread/fwrite of one byte, break).
+   READER: on EVERY byte stream - hostile ones included - the translated function returns what the
+   model's read_7bit returns: the same status, and on success the same value in *v and the same
+   stream position.  WRITER: for every int and every output budget the translated function emits
+   the first `budget` bytes of enc7 v and returns OK exactly when all of them were accepted. *)
+Theorem C16_source_reader : forall s B, Forall byte s ->
+  exists f0, forall f, (f0 <= f)%nat ->
+  match read_7bit s with
+  | Ok (v, s') => exists fin, call_io f prog_sbdf_read_7bitpacked_int32 [VNull; VNull] s B = OReturn (VInt SBDF_OK) fin /\
+                              lookup "*v" (vars fin) = Some (VInt v) /\ inb fin = s' /\ outb fin = []
+  | Err e => exists fin, call_io f prog_sbdf_read_7bitpacked_int32 [VNull; VNull] s B = OReturn (VInt e) fin
+  end.
+Proof. exact read7_correct. Qed.
+Print Assumptions C16_source_reader.
+
+Theorem C16_source_writer : forall v B, int_min <= v <= int_max -> 0 <= B ->
+  exists f0, forall f, (f0 <= f)%nat -> exists fin,
+    call_io f prog_sbdf_write_7bitpacked_int32 [VNull; VInt v] [] B = OReturn (VInt (if zlen (enc7 v) <=? B then SBDF_OK else SBDF_ERROR_IO)) fin /\
+    outb fin = ztake B (enc7 v).
+Proof. exact write7_correct. Qed.
+Print Assumptions C16_source_writer.
+
+Example C16_source_runs :
+  (match call_io 100 prog_sbdf_write_7bitpacked_int32 [VNull; VInt 300] [] 10 with OReturn v st => Some (v, outb st) | _ => None end) = Some (VInt 0, [172; 2]) /\
+  (match call_io 100 prog_sbdf_read_7bitpacked_int32 [VNull; VNull] [172; 2; 9] 0 with OReturn v st => Some (v, lookup "*v" (vars st), inb st) | _ => None end)
+    = Some (VInt 0, Some (VInt 300), [9]) /\
+  (match call_io 100 prog_sbdf_read_7bitpacked_int32 [VNull; VNull] [255; 255; 255; 255; 255; 9] 0 with OReturn v _ => Some v | _ => None end) = Some (VInt SBDF_ERROR_INVALID_SIZE).
+Proof. repeat split; vm_compute; reflexivity. Qed.
